@@ -16,12 +16,14 @@ from vt.run import Part, HarnessError, crash_bucket
 
 ID = "C11"
 LEVEL = "exploration"
-RULE = ("Hypothesis-generated structured WebVTT files (vt/gen_vtt.py): header with optional text/BOM, NOTE/STYLE/REGION blocks, 1-4 cues "
-        "(6 in the line-number part) with optional identifiers, timestamps with and without hours, cue settings over the values "
-        "{0,1,10,25,50,75,90,100} and payloads of 1-4 lines from the cue-text grammar (b i u c.class lang v ruby/rt nested to depth 3, "
-        "character references, inline timestamps) with unique word tokens. main avoids by construction the shapes that hit the known "
-        "reader defects; each of those shapes has a dedicated part. A case is non-trivial when the file has >= 2 cues, a cue with >= 2 "
-        "cue settings and a tag nested in another tag; distinct by case hash.")
+RULE = ("Hypothesis-generated structured WebVTT files (vt/gen_vtt.py): header with optional text/BOM, NOTE blocks anywhere and STYLE/REGION blocks "
+        "before the first cue, 1-4 cues (6 in the line-number part) with optional identifiers, non-decreasing start times printed with "
+        "and without hours, cue settings over the values {0,1,10,25,50,75,90,100} in any order, shared between cues of a file, and payloads "
+        "of 1-4 lines from the cue-text grammar (b i u c.class lang v ruby/rt nested to depth 3, character references, inline timestamps, "
+        "tags spanning lines) with unique word tokens. Part main avoids by construction the shapes that hit the reader defects found "
+        "so far; each of those shapes has its own small part (timestamps, ruby_nested, ruby_markup, ruby_loose, entities, geometry, "
+        "line_numbers, fractional, empty_payload, odd_ids). A case is non-trivial when the file has >= 2 cues, a cue with >= 2 cue "
+        "settings and a tag nested in another tag; distinct by case hash.")
 ASSUMPTIONS = [
   "line terminators are LF only and the text is handed over as io.StringIO: CR LF / CR translation is the caller's text layer (universal newlines), not the reader",
   "cue text contains no right-to-left characters (&rlm; and RTL letters are not generated), so left/right resolve to start/end and position alignment auto follows align with a left-to-right base direction",
@@ -32,6 +34,8 @@ ASSUMPTIONS = [
   "line numbers: displayAlign is asserted only for n >= 0 without an explicit line alignment (before); with a line alignment or n < 0 only validity and the ordering are asserted (snap-to-lines positioning ignores the line alignment; before and after anchoring are both defensible for n < 0). Ordering of line numbers assumes more than 10 rows/columns: anchored edges of |n| <= 10 are strictly ordered",
   "size / position given explicitly: inline extent = min(size, WebVTT maximum size) and the edge selected by the (computed) position alignment sits at position (auto position 0/50/100 by align); nothing is asserted on the inline axis when neither is given",
   "voice annotations, class names other than the eight colours and identifiers have no counterpart in the model and are only required not to disturb the text",
+  "not generated (legal but left out): payload lines consisting of white space only, timestamps inside ruby, region: cue settings, the header line followed by further header lines, missing space around -->",
+  "span ends are not asserted (a timestamp span needs no end); the P elements are taken in document order whatever div structure holds them",
   "ruby: the n-th <rt> annotates the n-th base; a base without <rt> is generated only in last position",
   "writer_roundtrip (reading the WebVTT writer's own output) is not part of this module yet: it needs the strict cue parser vt/cueparse.py (TODO hook at the end of this file)",
 ]
@@ -44,6 +48,45 @@ DEFAULT_BG = (0, 0, 0, 204)
 
 def selftest():
   G.selftest()
+  # the observer, on a model built by hand (not by the reader)
+  doc = model.ContentDocument()
+  p = model.P(doc)
+  p.set_begin(Fraction(3, 2))
+  s1 = model.Span(doc)
+  s1.set_style(SP.FontWeight, styles.FontWeightType.bold)
+  s1.set_style(SP.BackgroundColor, styles.NamedColors.blue.value)
+  s1.push_child(model.Text(doc, "ab"))
+  s2 = model.Span(doc)
+  s2.set_begin(Fraction(1, 2))
+  s2.set_lang("ja")
+  s2.set_style(SP.Color, styles.NamedColors.red.value)
+  s3 = model.Span(doc)
+  s3.set_begin(Fraction(1, 4))
+  s3.set_style(SP.TextDecoration, styles.TextDecorationType(underline=True))
+  s3.push_child(model.Text(doc, "c"))
+  s2.push_child(s3)
+  s1.push_child(s2)
+  p.push_child(s1)
+  p.push_child(model.Br(doc))
+  ruby, rbc, rtc = model.Ruby(doc), model.Rbc(doc), model.Rtc(doc)
+  for cont, cls, txt in ((rbc, model.Rb, "d"), (rtc, model.Rt, "e"), (rbc, model.Rb, "f"), (rtc, model.Rt, "g")):
+    x, sp = cls(doc), model.Span(doc)
+    sp.push_child(model.Text(doc, txt))
+    x.push_child(sp)
+    cont.push_child(x)
+  ruby.push_children([rbc, rtc])
+  p.push_child(ruby)
+  o = observe_p(p)
+  want = "ab" + "c" + "\n" + "df"
+  if text_of(o["stream"]) != want:
+    raise HarnessError("observer self-test: text %r" % text_of(o["stream"]))
+  a, c, d = o["stream"][0][1], o["stream"][2][1], o["stream"][5][1]
+  ok = (a["b"] and a["bg"] == (0, 0, 255, 255) and a["fg"] is None and a["begin"] == Fraction(3, 2) and a["lang"] is None and not a["u"]
+        and c["b"] and c["u"] and c["fg"] == (255, 0, 0, 255) and c["lang"] == "ja" and c["begin"] == Fraction(9, 4) and c["bg"] == (0, 0, 255, 255)
+        and o["stream"][3] == ["\n", None] and d["role"] == ["rb", 0, 1] and not d["b"]
+        and [[text_of(x) for x in o["rubies"][0][k]] for k in ("rb", "rt")] == [["d", "f"], ["e", "g"]] and not o["notes"])
+  if not ok:
+    raise HarnessError("observer self-test: attributes %r" % (o,))
 
 
 # ------------------------------------------------------------------------------------------------ observation (getters only)
@@ -102,8 +145,6 @@ def observe_p(p):
         if isinstance(b, float):
           out["notes"].append("float-span-begin")
         t2 = t + Fraction(b)
-      if c.get_end() is not None:
-        out["notes"].append("span-end")
       rk2 = rk
       if isinstance(c, model.Ruby):
         rk2 = len(out["rubies"])
@@ -156,7 +197,8 @@ def text_feature(feats):
 def crash_feature(feats):
   """input feature appended to a crash bucket (the generator's dedicated parts switch these on one at a time)"""
   for f, name in (("annotation-entity", "character-reference-in-annotation"), ("empty-payload", "cue-without-payload"),
-                  ("ruby-inside-tag", "ruby-inside-tag"), ("ruby-structured-content", "markup-inside-ruby")):
+                  ("ruby-inside-tag", "ruby-inside-tag"), ("ruby-structured-content", "markup-inside-ruby"),
+                  ("ruby-rt-unclosed", "ruby-rt-end-tag-omitted")):
     if f in feats:
       return ":" + name
   return ""
@@ -180,7 +222,7 @@ def compare_stream(res, ci, exp, obs, cue_begin, feats, nts, where):
     for key, name in (("b", "bold"), ("i", "italic"), ("u", "underline"), ("lang", "lang"), ("role", "ruby-role")):
       if ea[key] != oa[key] and name not in done:
         done.add(name)
-        res.fail("markup-scope:text-after-end-tag-following-timestamp" if leak else "markup:" + name + where,
+        res.fail("markup-scope:text-after-end-tag-following-timestamp" if leak else "markup:" + name + where + (text_feature(feats) if key == "role" else ""),
                  "cue %d char %d %r: %s expected %r got %r" % (ci, k, ch, name, ea[key], oa[key]))
     for key, name in (("fg", "colour-class"), ("bg", "background-class")):
       if not colour_ok(key, ea[key], oa[key]) and name not in done:
@@ -194,8 +236,9 @@ def compare_stream(res, ci, exp, obs, cue_begin, feats, nts, where):
       done.add("begin")
       if leak:
         b = "ts-begin:text-after-end-tag-following-timestamp"
-      elif ea["tsn"] >= 2 and cue_begin != 0:
-        b = "ts-begin:second-timestamp-in-cue-not-starting-at-zero"
+      elif ea["tsn"] >= 3 or (ea["tsn"] == 2 and cue_begin != 0):
+        # the timestamp follows an earlier timestamp whose span has a non-zero relative or inherited begin
+        b = "ts-begin:chained-timestamps"
       elif ea["tsn"] == 0:
         b = "ts-begin:text-before-first-timestamp"
       else:
@@ -351,18 +394,6 @@ def ladder_clause(res, items):
           res.fail("line-number-order:" + feat, what + " (0 is the first line, negative numbers count from the end)")
 
 
-def asserted_key(g):
-  """the part of the expectation that two cues cannot share a region on when it differs"""
-  line = g["line"]
-  lk = None
-  if line is not None and line["kind"] == "pct":
-    lk = ("pct", line["P"], line["edge"])
-  elif line is not None and line["align"] is None and line["n"] >= 0:
-    lk = ("before",)
-  i = g["inline"]
-  return (g["wm"], g["ta"], line is None, lk, None if i is None else (i["anchor"], i["P"], i["extent"]))
-
-
 # ------------------------------------------------------------------------------------------------ the check
 
 def labels_of(case, res, cues, feats_all):
@@ -435,8 +466,6 @@ def check(case, res):
     obs = observe_p(p)
     if "float-span-begin" in obs["notes"]:
       res.fail("time-type:float", "cue %d: a span begin is a float" % ci)
-    if "span-end" in obs["notes"]:
-      res.fail("span-end", "cue %d: a span inside the paragraph carries an end although no cue component ends before the cue" % ci)
     et, ot = text_of(e["stream"]), text_of(obs["stream"])
     if et != ot:
       res.fail(("text" if et.count("\n") == ot.count("\n") else "lines") + text_feature(feats), "cue %d: lines expected %r got %r" % (ci, et.split("\n"), ot.split("\n")))
@@ -445,6 +474,11 @@ def check(case, res):
     # ruby: n-th annotation belongs to the n-th base
     ex_r = [[[text_of(s) for s in r["rb"]], [text_of(s) for s, h in zip(r["rt"], r["has_rt"]) if h]] for r in e["rubies"]]
     ob_r = [[[text_of(s) for s in r["rb"]], [text_of(s) for s in r["rt"]]] for r in obs["rubies"]]
+    if any("" in l for r in ex_r for l in r):
+      # a base or annotation without any text may be represented by an empty element or by none
+      res.label("cue:ruby-empty-component")
+      ex_r = [[[t for t in l if t] for l in r] for r in ex_r]
+      ob_r = [[[t for t in l if t] for l in r] for r in ob_r]
     if ex_r != ob_r:
       res.fail("ruby-pairs" + text_feature(feats), "cue %d: [bases, annotations] per ruby expected %r got %r" % (ci, ex_r, ob_r))
     elif et == ot:
@@ -473,8 +507,7 @@ def check(case, res):
         shared = True
         if r1 is not r2:
           res.fail("region-sharing:equal-settings", "cues %d and %d have the settings %r but the regions %s and %s" % (a, b, e1["key"], r1.get_id(), r2.get_id()))
-      elif r1 is r2 and f1 and f2 and f1["clean"] and f2["clean"] and asserted_key(e1["geom"]) != asserted_key(e2["geom"]):
-        res.fail("region-sharing:different-geometry", "cues %d and %d (%r, %r) share region %s" % (a, b, e1["key"], e2["key"], r1.get_id()))
+      # cues with different geometry: a shared region would have to satisfy both expectations, which the per-cue clauses decide
   if shared:
     res.label("file:cues-sharing-settings")
   if len(set(id(x[0]) for x in regions if x)) >= 2:
@@ -507,7 +540,9 @@ SHRINK = G.simplifications
 
 MAIN = G.profile()
 TIMESTAMPS = G.profile(ts="full", ruby="none", geometry="none")
-RUBY = G.profile(ruby="full", ts="none", geometry="none")
+RUBY_NESTED = G.profile(ruby="nested", ts="none", geometry="none")
+RUBY_MARKUP = G.profile(ruby="structured", ts="none", geometry="none")
+RUBY_LOOSE = G.profile(ruby="loose", ts="none", geometry="none")
 ENTITIES = G.profile(entities="all", annot_entities=True, geometry="none", ts="none")
 GEOMETRY = G.profile(geometry="all", ts="none", ruby="none", depth=1)
 NUMBERS = G.profile(geometry="numbers", ts="none", ruby="none", depth=1, max_cues=6)
@@ -516,15 +551,17 @@ EMPTY_PAYLOAD = G.profile(empty_payload=True, geometry="none", ts="none", ruby="
 ODD_IDS = G.profile(odd_ids=True, geometry="none", ts="none", ruby="none", depth=1)
 
 PARTS = {
-  "main": Part("main", check, strategy=cases(MAIN), n=(640, 80000), shrinker=SHRINK,
+  "main": Part("main", check, strategy=cases(MAIN), n=(1600, 80000), shrinker=SHRINK,
                required_labels=("block:note", "block:style", "block:region", "cue:identifier", "cue:hours-omitted", "cue:hours-printed",
                                 "setting:vertical", "setting:line", "setting:position", "setting:size", "setting:align", "line:pct",
                                 "line:positive", "cue:depth-3", "cue:ruby", "cue:timestamp", "cue:entity", "cue:lines-4",
                                 "file:cues-sharing-settings", "file:several-regions", "cue:tag:b", "cue:tag:i", "cue:tag:u", "cue:tag:c",
                                 "cue:tag:lang", "cue:tag:v")),
   "timestamps": Part("timestamps", check, strategy=cases(TIMESTAMPS), n=(160, 16000), shrinker=SHRINK, required_labels=("cue:timestamps-3",)),
-  "ruby": Part("ruby", check, strategy=cases(RUBY), n=(160, 16000), shrinker=SHRINK,
-               required_labels=("cue:ruby-inside-tag", "cue:ruby-structured-content", "cue:ruby-rt-unclosed")),
+  "ruby_nested": Part("ruby_nested", check, strategy=cases(RUBY_NESTED), n=(80, 8000), shrinker=SHRINK, required_labels=("cue:ruby-inside-tag",)),
+  "ruby_markup": Part("ruby_markup", check, strategy=cases(RUBY_MARKUP), n=(80, 8000), shrinker=SHRINK, required_labels=("cue:ruby-structured-content",)),
+  "ruby_loose": Part("ruby_loose", check, strategy=cases(RUBY_LOOSE), n=(80, 8000), shrinker=SHRINK,
+                     required_labels=("cue:ruby-rt-unclosed", "cue:ruby-base-without-rt")),
   "entities": Part("entities", check, strategy=cases(ENTITIES), n=(160, 16000), shrinker=SHRINK,
                    required_labels=("cue:annotation-entity", "cue:entity-semicolon-only")),
   "geometry": Part("geometry", check, strategy=cases(GEOMETRY), n=(320, 32000), shrinker=SHRINK,
